@@ -969,6 +969,116 @@ func (rr *rckRun) checkFollowerCompletion(sh *rckSiteHolder, ids []string, repli
 	}
 }
 
+// runC06Resize: resize-completion messages (their job id, node and error text are chosen
+// by the sender, and they arrive late, twice or for a job that has ended) must be
+// answered, never block the receiving goroutine (C06: never hangs).
+func (rr *rckRun) runC06Resize() {
+	type step struct {
+		errText string
+		node    string
+	}
+	cases := []struct {
+		name  string
+		state string // job state before the messages
+		read  int    // how many results the coordinator side will still read
+		msgs  []step
+	}{
+		{"error completion for a job that is DONE", resizeJobStateDone, 0, []step{{"boom", "node1"}}},
+		{"error completion for a job that is ABORTED", resizeJobStateAborted, 0, []step{{"boom", "node1"}}},
+		{"completion for a job that is DONE", resizeJobStateDone, 0, []step{{"", "node1"}}},
+		{"three completions for a job that is DONE", resizeJobStateDone, 0, []step{{"", "node1"}, {"", "node2"}, {"late error", "node1"}}},
+		{"error completions for a job that is ABORTED", resizeJobStateAborted, 0, []step{{"boom", "node1"}, {"boom", "node2"}, {"", "node2"}}},
+		{"two error completions for a running job", resizeJobStateRunning, 1, []step{{"boom", "node1"}, {"boom again", "node2"}}},
+		{"error completion, then a normal one", resizeJobStateRunning, 1, []step{{"boom", "node1"}, {"", "node2"}}},
+		{"last completion twice", resizeJobStateRunning, 1, []step{{"", "node1"}, {"", "node2"}, {"", "node2"}}},
+		{"completion from an unknown node, then errors", resizeJobStateRunning, 1, []step{{"", "stranger"}, {"x", "node1"}, {"y", "node1"}}},
+	}
+	for _, tc := range cases {
+		seq := []string{"resize job 7 over node1,node2 in state " + tc.state, tc.name}
+		c := newCluster()
+		c.broadcaster = NopBroadcaster
+		j := &resizeJob{ID: 7, IDs: map[string]bool{"node1": false, "node2": false}, result: make(chan string), state: tc.state, Logger: c.logger}
+		c.jobs = map[int64]*resizeJob{7: j}
+		stop := make(chan struct{})
+		go func(n int) { // the coordinator's side: reads the result it is waiting for, then marks the job
+			for i := 0; i < n; i++ {
+				select {
+				case st := <-j.result:
+					j.setState(st)
+					j.mu.Lock()
+					j.state = st
+					j.mu.Unlock()
+				case <-stop:
+					return
+				}
+			}
+		}(tc.read)
+		for i, m := range tc.msgs {
+			rr.eval("C06", 1)
+			rr.nontrivial("C06|resize|" + tc.name + fmt.Sprint(i))
+			done := make(chan interface{}, 1)
+			msg := &ResizeInstructionComplete{JobID: 7, Node: rckNode(m.node), Error: m.errText}
+			go func() {
+				defer func() { done <- recover() }()
+				_ = c.markResizeInstructionComplete(msg)
+			}()
+			select {
+			case p := <-done:
+				if p != nil {
+					rr.fail([]string{"C06"}, "resize-complete-panics", fmt.Sprintf("markResizeInstructionComplete(message %d: node %q, error %q) panics: %v", i+1, m.node, m.errText, p), seq)
+				}
+			case <-time.After(3 * time.Second):
+				rr.fail([]string{"C06"}, "resize-complete-hangs", fmt.Sprintf("markResizeInstructionComplete(message %d: node %q, error %q) has not returned after 3 s: the goroutine that received the cluster message is blocked", i+1, m.node, m.errText), seq)
+			}
+			time.Sleep(20 * time.Millisecond) // let the coordinator side record the result
+		}
+		close(stop)
+	}
+	// Schema messages that name an index, field or view this node does not have (deleted
+	// a moment ago, or never created here): Server.receiveMessage is also called from the
+	// gossip delegate, which has no recover, so it must answer with an error or nil.
+	all, _ := rr.newReplicas(1)
+	rep := all[0]
+	defer func() { _ = rep.api.Close(); _ = rep.s.holder.Close() }()
+	for _, ix := range []string{"i", "nope"} {
+		for _, fd := range []string{"s", "nofield"} {
+			msgs := []Message{
+				&DeleteFieldMessage{Index: ix, Field: fd},
+				&DeleteAvailableShardMessage{Index: ix, Field: fd, ShardID: 3},
+				&CreateShardMessage{Index: ix, Field: fd, Shard: 5},
+				&CreateViewMessage{Index: ix, Field: fd, View: "standard_2031"},
+				&DeleteViewMessage{Index: ix, Field: fd, View: "standard_2031"},
+				&CreateFieldMessage{Index: ix, Field: fd + "x", Meta: &FieldOptions{Type: FieldTypeSet, CacheType: CacheTypeNone}},
+				&DeleteIndexMessage{Index: ix + "-other"},
+			}
+			for _, m := range msgs {
+				if ix == "i" && fd == "s" {
+					if _, del := m.(*DeleteFieldMessage); del {
+						continue // keep the field for the following messages
+					}
+				}
+				seq := []string{fmt.Sprintf("node holds index i with fields s,t,v; receiveMessage(%T%+v)", m, m)}
+				rr.eval("C06", 1)
+				rr.nontrivial(fmt.Sprintf("C06|schema-msg|%T|%s|%s", m, ix, fd))
+				done := make(chan interface{}, 1)
+				m := m
+				go func() {
+					defer func() { done <- recover() }()
+					_ = rep.s.receiveMessage(m)
+				}()
+				select {
+				case p := <-done:
+					if p != nil {
+						rr.fail([]string{"C06"}, fmt.Sprintf("schema-message-panics-%T", m), fmt.Sprintf("receiveMessage(%T%+v) panics (%v) instead of returning an error", m, m, p), seq)
+					}
+				case <-time.After(5 * time.Second):
+					rr.fail([]string{"C06"}, fmt.Sprintf("schema-message-hangs-%T", m), fmt.Sprintf("receiveMessage(%T%+v) has not returned after 5 s", m, m), seq)
+				}
+			}
+		}
+	}
+}
+
 func (rr *rckRun) runC21() {
 	schemas := []*rckSchema{rr.newSchema(0), rr.newSchema(1)}
 	defer func() {
@@ -1722,7 +1832,9 @@ func (rr *rckRun) runC11Sync() {
 			content[r] = map[rckFragKey]rckBits{rckAEProbe: {{0, 0}: true, {1, 0}: true}}
 		}
 		content[n-1][rckAEProbe] = rckBits{{0, 0}: true}
-		rr.aeCase(all, n, 0, []rckFragKey{rckAEProbe}, content, true)
+		// the bit-sliced view of an int field: repaired like every other view (this was a
+		// probe without oracle until the defect behind its error was repaired)
+		rr.aeCase(all, n, 0, []rckFragKey{rckAEProbe}, content, false)
 	}
 }
 
@@ -2067,6 +2179,7 @@ func TestRcheckCluster(t *testing.T) {
 		{"C11-SyncHolder", rr.runC11Sync},
 		{"C20", rr.runC20},
 		{"C21", rr.runC21},
+		{"C06-resize-messages", rr.runC06Resize},
 	} {
 		t0 := time.Now()
 		part := part
